@@ -412,3 +412,8 @@ package openapi3
 //@   atcall @C02 (*Loader).resolveSchemaRef [nested-refs-of-a-loaded-file-resolved-against-it] inLoadedFile(arg_documentPath)
 //@ extend func (*Loader).resolveCallbackRef
 //@   atcall @C02 (*Loader).resolvePathItemRef [nested-refs-resolved-against-the-file-they-are-in] inFileOf(arg_documentPath, documentPath)
+
+// C20: the fragment drill-down of resolveComponent (a function literal) under the no-panic obligations
+//@ func (*Loader).resolveComponent$1
+//@   modifies *
+//@   tag C20
